@@ -194,7 +194,7 @@ class Family:
             forms.append(("scoped-quoted:" + k, '%s ( i in 0 .. 2 ) { x_{ "i" } + x_i }' % k))
         forms += [("neg", "- x"), ("not", "not x"), ("bang", "! x"), ("add", "x + y"), ("sub-nest", "x - ( y - z )"), ("div-nest", "x / ( y * 2 )"), ("and", "x and y"), ("implies", "x -> y"),
                   ("neg-num", "- 2"), ("float", "2.50"), ("float-small", "0.00001"), ("float-whole", "2.0"), ("string-esc", '"a\\"b"'), ("array-mixed", '[ 1 , "s" ]'), ("array-float", "[ 1.5 , 2 ]"), ("array-nested", "[ [ 1 , 2 ] , [ 3 ] ]"),
-                  ("graph", "Graph { A -> [ B : 2 , C ] , B }"), ("graph-nodes", "Graph { A , B }"), ("graph-one", "Graph { A }"), ("graph-empty", "Graph { }"), ("noname-index", "_{ i }_j"), ("lead-underscore", "_a"), ("lead-underscores", "__a1"), ("dollar", "$a"), ("escaped-lead", "\\_x_i"), ("noname-literal", "_ _a"), ("noname-int", "_1"), ("float-index", "x_{ 0.5 }"), ("compound", "x_i_{ j + 1 }_2"), ("escaped", "\\\\x_i"), ("range-fn", "range ( 0 , 3 , true )"), ("implicit", "2 ( x + 1 ) y"), ("range-fn-flag-name", "range ( 0 , n , closed )"), ("range-fn-flag-not", "range ( 1 , n , not open )"), ("range-fn-flag-false", "range ( 0 , 3 , false )"), ("range-fn-ends", "range ( a - 1 , len ( A ) , true )"), ("quoted-index", 'x_{ "i" }'), ("quoted-index-mixed", 'x_{ "a" }_i'), ("quoted-index-free", 'x_{ "Q" }_{ "q1" }')]
+                  ("graph", "Graph { A -> [ B : 2 , C ] , B }"), ("graph-zero-weight", "Graph { A -> [ B : 0 , C : -1.5 , D : 0.0 ] , B -> [ A : 1 ] }"), ("graph-nodes", "Graph { A , B }"), ("graph-one", "Graph { A }"), ("graph-empty", "Graph { }"), ("noname-index", "_{ i }_j"), ("lead-underscore", "_a"), ("lead-underscores", "__a1"), ("dollar", "$a"), ("escaped-lead", "\\_x_i"), ("noname-literal", "_ _a"), ("noname-int", "_1"), ("float-index", "x_{ 0.5 }"), ("compound", "x_i_{ j + 1 }_2"), ("escaped", "\\\\x_i"), ("range-fn", "range ( 0 , 3 , true )"), ("implicit", "2 ( x + 1 ) y"), ("range-fn-flag-name", "range ( 0 , n , closed )"), ("range-fn-flag-not", "range ( 1 , n , not open )"), ("range-fn-flag-false", "range ( 0 , 3 , false )"), ("range-fn-ends", "range ( a - 1 , len ( A ) , true )"), ("quoted-index", 'x_{ "i" }'), ("quoted-index-mixed", 'x_{ "a" }_i'), ("quoted-index-free", 'x_{ "Q" }_{ "q1" }')]
         seen, out = set(), []
         for l, t in forms:
             if t and t not in seen:
